@@ -1,7 +1,7 @@
 /-
   Spline.lean — spline/spline.hpp + spline/detail/spline_impl.hpp: the `Spline<K,G>` segment state
-  machine (C12), transcribed WITH THE INDEX EXPRESSIONS THE CODE HAS (including the wrong ones of
-  `crop`).
+  machine (C12).  `crop` exists twice: `cropIdx` (literal index transcription) and `crop` (the same
+  arithmetic by list recursion, the object of the theorems); the driver checks them against each other.
 
   A spline is `{g0, segs}`; `segs` zips the five parallel vectors `m_end_t m_end_g m_Vs m_seg_T0
   m_seg_Del` (spline.hpp:260-273).  Everything is written once over
@@ -24,7 +24,8 @@ namespace SplineSM
 class TimeOps (τ : Type) extends Add τ, Sub τ, Mul τ, Div τ, LT τ, LE τ where
   zero : τ
   one : τ
-  three : τ
+  /-- `double(n)` for an integer constant / template parameter -/
+  ofNat : Nat → τ
   decLt : ∀ a b : τ, Decidable (a < b)
   decLe : ∀ a b : τ, Decidable (a ≤ b)
 
@@ -47,7 +48,7 @@ open TimeOps
 instance timeOpsOfScalar {α : Type} [Scalar α] : TimeOps α where
   zero := Scalar.nat 0
   one := Scalar.nat 1
-  three := Scalar.nat 3
+  ofNat := fun n => Scalar.nat n
   decLt := Scalar.decLt
   decLe := Scalar.decLe
 
@@ -112,11 +113,11 @@ def ctor (T : τ) (V : List W) (ga : G) : Spline τ G W :=
 /-- `Spline(double T, const Rv & vs, const G & ga)` (range of tangents): same state -/
 def ctorVs (T : τ) (vs : List W) (ga : G) : Spline τ G W := ctor C T vs ga
 
-/-- `ConstantVelocity(v, T, ga)`: `V = (T / 3) * v.replicate(1, K)` — the factor is `T/3` for every K;
+/-- `ConstantVelocity(v, T, ga)`: `V = (T / K) * v.replicate(1, K)`;
     `T ≤ 0` returns `Spline()` (start at the IDENTITY, not at `ga`). -/
 def constantVelocity (v : W) (T : τ) (ga : G) : Spline τ G W :=
   if T ≤ zero then empty C.one
-  else ctor C T (List.replicate C.K (C.wsmul (T / three) v)) ga
+  else ctor C T (List.replicate C.K (C.wsmul (T / ofNat C.K) v)) ga
 
 /-- `ConstantVelocityGoal(gb, T, ga) = ConstantVelocity((gb - ga) / T, T, ga)` -/
 def constantVelocityGoal (gb : G) (T : τ) (ga : G) : Spline τ G W :=
@@ -124,8 +125,8 @@ def constantVelocityGoal (gb : G) (T : τ) (ga : G) : Spline τ G W :=
 
 /-- `FixedCubic(gb, va, vb, T, ga)` (K = 3) -/
 def fixedCubic (gb : G) (va vb : W) (T : τ) (ga : G) : Spline τ G W :=
-  let V0 := C.wdivs (C.wsmul T va) three
-  let V2 := C.wdivs (C.wsmul T vb) three
+  let V0 := C.wdivs (C.wsmul T va) (ofNat 3)
+  let V2 := C.wdivs (C.wsmul T vb) (ofNat 3)
   let V1 := C.log (C.mul (C.mul (C.exp (C.wneg V0)) (C.mul (C.inv ga) gb)) (C.exp (C.wneg V2)))
   ctor C T [V0, V1, V2] ga
 
@@ -218,11 +219,12 @@ def endT (s : Spline τ G W) (i : Nat) : τ :=
   | some sg => sg.tEnd
   | none => zero
 
-/-- `crop(ta, tb, localize)` with the code's index expressions:
-    first-segment re-parameterisation with `tta = 0`, `ttb = m_end_t[i0]`;
-    last-segment with `m_end_t[Nseg-2]`, `m_end_t[Nseg-1]` (NOT offset by `i0`);
-    end points always multiplied by `ga⁻¹`, also when `localize = false`. -/
-def crop (s : Spline τ G W) (ta tb : τ) (localize : Bool) : Spline τ G W :=
+/-- `crop(ta, tb, localize)`, LITERAL index transcription of the code (spline_impl.hpp:301-371):
+    `i0 = find_idx(ta)`, `Nseg = find_idx(tb) + 1 - i0` (minus one when `m_end_t[i0+Nseg-2] == tb`),
+    first-segment re-parameterisation with `tta = i0 == 0 ? 0 : m_end_t[i0-1]`, last-segment with
+    `m_end_t[i0+Nseg-2]`, `m_end_t[i0+Nseg-1]`; end points multiplied by `ga⁻¹` iff `localize`.
+    The driver evaluates this next to the structural `crop` below and refuses to answer if they differ. -/
+def cropIdx (s : Spline τ G W) (ta tb : τ) (localize : Bool) : Spline τ G W :=
   let ta := tmax ta zero
   let tb := tmin tb (tMax s)
   if tb ≤ ta then empty C.one
@@ -234,13 +236,13 @@ def crop (s : Spline τ G W) (ta tb : τ) (localize : Bool) : Spline τ G W :=
     else
       let ga := val C s ta
       let gb := val C s tb
-      let gai := C.inv ga
+      let adj : G → G := fun g => if localize then C.mul (C.inv ga) g else g
       -- copy over all relevant segments
       let src := (s.segs.drop i0).take Nseg
-      let l0 := src.map (fun sg => { sg with tEnd := sg.tEnd - ta, gEnd := C.mul gai sg.gEnd })
-      let l1 := modAt (fun sg => { sg with tEnd := tb - ta, gEnd := C.mul gai gb }) (Nseg - 1) l0
+      let l0 := src.map (fun sg => { sg with tEnd := sg.tEnd - ta, gEnd := adj sg.gEnd })
+      let l1 := modAt (fun sg => { sg with tEnd := tb - ta, gEnd := adj gb }) (Nseg - 1) l0
       -- crop first segment
-      let tta : τ := zero
+      let tta : τ := if i0 = 0 then zero else endT s (i0 - 1)
       let ttb := endT s i0
       let sa := ta
       let sb := ttb
@@ -248,14 +250,49 @@ def crop (s : Spline τ G W) (ta tb : τ) (localize : Bool) : Spline τ G W :=
         { sg with T0 := sg.T0 + sg.Del * (sa - tta) / (ttb - tta),
                   Del := sg.Del * ((sb - sa) / (ttb - tta)) }) 0 l1
       -- crop last segment
-      let tta := if Nseg = 1 then ta else endT s (Nseg - 2)
-      let ttb := endT s (Nseg - 1)
+      let tta := if Nseg = 1 then ta else endT s (i0 + Nseg - 2)
+      let ttb := endT s (i0 + Nseg - 1)
       let sa := tta
       let sb := tb
       let l3 := modAt (fun sg =>
         { sg with T0 := sg.T0 + sg.Del * (sa - tta) / (ttb - tta),
                   Del := sg.Del * ((sb - sa) / (ttb - tta)) }) (Nseg - 1) l2
       ⟨if localize then C.one else ga, l3⟩
+
+/-- segments after the first one of a crop; `tp` = end time of the previous SOURCE segment.
+    A segment is the last one iff `tb ≤ tEnd` (`find_idx(tb)` and the `m_end_t[i0+Nseg-2] == tb` rule), or
+    it is the last segment there is.  Last-segment block: `tta = m_end_t[i0+Nseg-2] = tp`, `sa = tta`, `sb = tb`. -/
+def cropTail (adj : G → G) (ta tb : τ) (gb : G) : τ → List (Seg τ G W) → List (Seg τ G W)
+  | _, [] => []
+  | tp, sg :: rest =>
+    if tb ≤ sg.tEnd ∨ rest = [] then
+      [⟨tb - ta, adj gb, sg.V, sg.T0 + sg.Del * (tp - tp) / (sg.tEnd - tp), sg.Del * ((tb - tp) / (sg.tEnd - tp))⟩]
+    else ⟨sg.tEnd - ta, adj sg.gEnd, sg.V, sg.T0, sg.Del⟩ :: cropTail adj ta tb gb sg.tEnd rest
+
+/-- `find_idx(ta)` fused with the construction: skip the segments with `tEnd ≤ ta`, re-parameterise the
+    one that contains `ta` (first-segment block: `tta = tp`, `ttb = tEnd`, `sa = ta`, `sb = ttb`; when it is
+    also the last one the last-segment block follows with `tta = ta`), then `cropTail`. -/
+def cropFrom (adj : G → G) (ta tb : τ) (gb : G) : τ → List (Seg τ G W) → List (Seg τ G W)
+  | _, [] => []
+  | tp, sg :: rest =>
+    if ta < sg.tEnd ∨ rest = [] then
+      let T0' := sg.T0 + sg.Del * (ta - tp) / (sg.tEnd - tp)
+      let Del' := sg.Del * ((sg.tEnd - ta) / (sg.tEnd - tp))
+      if tb ≤ sg.tEnd ∨ rest = [] then
+        [⟨tb - ta, adj gb, sg.V, T0' + Del' * (ta - ta) / (sg.tEnd - ta), Del' * ((tb - ta) / (sg.tEnd - ta))⟩]
+      else ⟨sg.tEnd - ta, adj sg.gEnd, sg.V, T0', Del'⟩ :: cropTail adj ta tb gb sg.tEnd rest
+    else cropFrom adj ta tb gb sg.tEnd rest
+
+/-- `crop(ta, tb, localize)` in list form (same arithmetic as `cropIdx`, indices replaced by recursion) -/
+def crop (s : Spline τ G W) (ta tb : τ) (localize : Bool) : Spline τ G W :=
+  let ta := tmax ta zero
+  let tb := tmin tb (tMax s)
+  if tb ≤ ta then empty C.one
+  else
+    let ga := val C s ta
+    let gb := val C s tb
+    let adj : G → G := fun g => if localize then C.mul (C.inv ga) g else g
+    ⟨if localize then C.one else ga, cropFrom adj ta tb gb zero s.segs⟩
 
 /-! ### arclength (K = 3) -/
 
@@ -269,7 +306,8 @@ def arcFrom (t : τ) : Bool → τ → List (Seg τ G W) → W → W
       let ub := ua + sg.Del * (tmin t sg.tEnd - tp) / (sg.tEnd - tp)
       arcFrom t false sg.tEnd rest (C.wadd acc (C.absint sg.V ua ub))
 
-def arclength (s : Spline τ G W) (t : τ) : W := arcFrom C t true zero s.segs C.wzero
+/-- `arclength(t)`: `t = std::max<double>(t, 0)` first -/
+def arclength (s : Spline τ G W) (t : τ) : W := arcFrom C (tmax t zero) true zero s.segs C.wzero
 
 /-! ### the concrete kernel of the driver: a `LieModel` and the cumulative basis matrix -/
 section Concrete
@@ -284,7 +322,7 @@ def integrateAbsPoly (t0 t1 A B C : α) : α :=
   let mids : Option α × Option α :=
     if Scalar.abs A < tiny ∧ tiny < Scalar.abs B then
       (some (clampT (-C / B)), none)
-    else if tiny < Scalar.abs A then
+    else if tiny ≤ Scalar.abs A then
       let res := B * B / (nat 4 * A * A) - C / A
       if nat 0 < res then
         (some (-B / (nat 2 * A) - Scalar.sqrt res), some (-B / (nat 2 * A) + Scalar.sqrt res))
